@@ -527,7 +527,11 @@ locals that `e` does not otherwise read (`postsIndep e`, `postsTyped c e`).  Und
 * C side: `evalCH` of `e` gives the value `evalC` gives for `unhyb k e` in a state binding the temporaries to the
   old values, and applies the postfix operations in order;
 * the emitted effect (postfix entries rendered in front of the assignment, pulled there by `chk`) executed by
-  `execIL` from an `Inv`-related state ends in a state `Inv`-related to the result of `execCH`. -/
+  `execIL` from an `Inv`-related state ends in a state `Inv`-related to the result of `execCH`.
+  (`Inv` = `C05.Inv`, the two-state invariant of `Lemmas/StmtState.lean`, as re-stated for assignable immediates: the
+  IL local of every registered immediate letter holds the C side's CURRENT immediate; the `imm` components of the two
+  states are not related.  Hypothesis and conclusion of `decl_post_sim(_closed)`, `assign_post_sim(_closed)`,
+  `vcall_usr_sim(_closed)` changed together.) -/
 
 /-- compile side of the fragment -/
 theorem compileExprH_unhyb {env : CEnv} (hcfg : env.cfg.literalTypeBySuffixOnly = false) {e : CExpr} {st st' : HSt}
